@@ -189,7 +189,9 @@ def run(ctx):
                     ev.set_cell_value(build.addr(k), v)
                 if rng.random() < 0.5:
                     ev.set_cell_value(build.addr(m.inputs[0]),
-                                      datetime.datetime(2021, 3, 4, 5, 6, 7))
+                                      datetime.datetime(
+                                          2021, 3, 4, 5, 6, 7, rng.choice(
+                                              [0, 678901, 1, 999999])))
             ctx.event('point_' + point)
             before = snapshot(model)
             # one path per shard and extension: a file written earlier (by a
@@ -199,7 +201,12 @@ def run(ctx):
                 ctx.event('overwritten_files')
             ctx.event('round_trips')
             try:
-                model.persist_to_json_file(fname)
+                if rng.random() < 0.3:
+                    import pathlib
+                    model.persist_to_json_file(pathlib.Path(fname))
+                    ctx.event('pathlib_paths')
+                else:
+                    model.persist_to_json_file(fname)
                 with open(fname, 'rb') as fp:
                     magic = fp.read(2)
                 if rng.random() < 0.3:
